@@ -66,7 +66,6 @@ impl MT112 {
 
         verify_parser_complete(&parser)?;
 
-
         Ok(MT112 {
             field_20,
             field_21,
